@@ -29,11 +29,33 @@ impl Out {
     }
 }
 
-/// Run `f`; a panic becomes `Err(message)`.
+thread_local! {
+    /// file:line of the last panic raised on this thread (set by the panic hook)
+    pub static LAST_PANIC: std::cell::RefCell<String> = const { std::cell::RefCell::new(String::new()) };
+}
+pub fn last_panic() -> String {
+    LAST_PANIC.with(|c| c.borrow().clone())
+}
+/// The driver is the only member of its workspace, so its own files are reported as `drv/src/...`; the crates under test
+/// (path dependencies), the registry crates and std are reported with other (absolute, or crate-relative in a shadow
+/// workspace: `aes/src/...`) paths.
+pub fn is_driver_location(loc: &str) -> bool {
+    loc.starts_with("drv/src/") || loc.starts_with("src/")
+}
+
+/// Run `f`; a panic becomes `Err(message)`.  A panic raised by the driver's own code inside `f` is a tool error.
 pub fn catch<R>(f: impl FnOnce() -> R) -> Result<R, String> {
     match catch_unwind(AssertUnwindSafe(f)) {
         Ok(r) => Ok(r),
         Err(e) => {
+            let loc = last_panic();
+            if std::env::var_os("VERIF_DRV_TRACE_PANICS").is_some() {
+                eprintln!("caught panic at {loc}");
+            }
+            if is_driver_location(&loc) {
+                eprintln!("driver bug: panic in the driver's own code at {loc}");
+                std::process::exit(2);
+            }
             let msg = if let Some(s) = e.downcast_ref::<&str>() {
                 s.to_string()
             } else if let Some(s) = e.downcast_ref::<String>() {
